@@ -25,3 +25,48 @@ Proof.
   apply units_tight; [|exact Hb].
   apply pow2_pos. apply SA_pow2; [apply wf_plist_Forall; exact Hwf|exact Hne].
 Qed.
+
+(* ---------- an element's block always covers what is copied into it (C02 for elements) ---------- *)
+Lemma SA_pos_wf L : wf_plist L = true -> 0 < SA L.
+Proof.
+  intros Hwf. apply pow2_pos. apply SA_pow2; [apply wf_plist_Forall; exact Hwf|apply wf_plist_nonempty; exact Hwf].
+Qed.
+
+(* value_type{reference}: the new block holds at least size_in_bytes() bytes *)
+Theorem elem_from_ref_block_covers mv L ms fls sb aid junk nb : wf_plist L = true ->
+  0 <= ref_bytes L fls ->
+  let el := snd (fst (elem_from_ref mv L ms fls sb aid junk nb)) in
+  ref_bytes L fls <= SA L * e_units el.
+Proof.
+  intros Hwf Hb. cbv zeta. unfold elem_from_ref.
+  destruct (store_and_load mv L ms fls sb (ref_bytes L fls) junk nb) as [[[ms1 md1] fld] evs].
+  cbn [fst snd e_units]. apply units_ge; [apply SA_pos_wf; exact Hwf|exact Hb].
+Qed.
+
+(* element move assignment between unequal non-propagating allocators on the general path: the
+   target's block is reused ONLY when the source's bytes fit into it (the library compares the
+   byte count with the unit count - conservative, never too small), otherwise a block of the
+   source's unit count is requested *)
+Theorem elem_move_assign_block_covers pocma ae L d src junk nb : wf_plist L = true ->
+  (ae || pocma || (e_aid d =? e_aid src)) = false ->
+  (fixed_or_plain L && match e_bid d with Some _ => true | None => false end) = false ->
+  0 <= e_units d ->
+  let d' := fst (fst (fst (elem_move_assign pocma ae L d src junk nb))) in
+  if e_units d <? ref_bytes L (e_fl src)
+  then e_units d' = e_units src /\ e_bid d' = Some nb
+  else ref_bytes L (e_fl src) <= SA L * e_units d' /\ e_units d' = e_units d.
+Proof.
+  intros Hwf Hns Hpath Hu. cbv zeta. unfold elem_move_assign. rewrite Hns, Hpath.
+  destruct (Z.ltb_spec (e_units d) (ref_bytes L (e_fl src))) as [Hlt|Hge].
+  - destruct (elem_destruct L d) as [d1 e1].
+    destruct (store_and_load true L (e_mem src) (e_fl src) (bidn (e_bid src)) (ref_bytes L (e_fl src)) junk nb) as [[[ms md] fld] e2].
+    cbn [fst snd e_units e_bid]. split; reflexivity.
+  - assert (Hd1 : e_units (fst (elem_destruct L d)) = e_units d).
+    { unfold elem_destruct. destruct (e_bid d); [|reflexivity]. destruct (all_dtriv L); [reflexivity|].
+      destruct (destruct_fields L (e_fl d) n (e_mem d)) as [m evs]. reflexivity. }
+    destruct (elem_destruct L d) as [d1 e1]. cbn [fst] in Hd1.
+    destruct (store_and_load true L (e_mem src) (e_fl src) (bidn (e_bid src)) (ref_bytes L (e_fl src)) (e_mem d1) (bidn (e_bid d1)))
+      as [[[ms md] fld] e2].
+    cbn [fst snd e_units]. rewrite Hd1. split; [|reflexivity].
+    pose proof (SA_pos_wf L Hwf) as HS. nia.
+Qed.
